@@ -1,3 +1,1141 @@
-//! C18 — bounded checks (to be written)
-use crate::ctx::Ctx;
-pub fn run(_ctx: &mut Ctx) {}
+//! C18 — hypergraph morphism validation, monomorphism and convexity tests are exact.
+//!
+//! Input of the three main checks: two plain hypergraphs g, h (model `M` with empty interfaces) and
+//! two finite maps  w : len(w) -> wt,  x : len(x) -> xt  (any lengths, any declared codomains).
+//!
+//! Oracles (plain loops, from the property statement):
+//!  * typed-w / typed-x : the declared codomain is the node / hyperedge set of h
+//!  * labels-w / labels-x: the map is defined exactly on the nodes / hyperedges of g, every image is an
+//!                        element of h and g's label of every element equals h's label of its image
+//!  * sources / targets : for every hyperedge e of g, x(e) is a hyperedge of h and the ordered list of
+//!                        e, mapped elementwise by w, equals the ordered list of x(e)
+//!    (each clause is evaluated on the values alone, independently of the others)
+//!    accepted  <=>  all six hold;   Err(variant)  =>  the clause named by the variant is false.
+//!  * monomorphism      : no value repeated in w and none in x
+//!  * convex            : monomorphism and there is NO hyperedge e outside the image of x together
+//!                        with image nodes u, v such that u reaches (in >= 0 steps, any hyperedges)
+//!                        some source of e and some target of e reaches (>= 0 steps) v.
+//!                        (= "a directed path between two image nodes passes through an outside
+//!                        hyperedge"; reachability by Warshall closure on the whole of h.)
+//! A fourth check exercises the two segmented-array reindexing routines validation is made of.
+use crate::ctx::{guard, Ctx, Rng};
+use crate::model::*;
+use open_hypergraphs::array::vec::*;
+use open_hypergraphs::finite_function::FiniteFunction;
+use open_hypergraphs::indexed_coproduct::IndexedCoproduct;
+use open_hypergraphs::semifinite::SemifiniteFunction;
+use open_hypergraphs::strict::hypergraph::arrow::{HypergraphArrow, InvalidHypergraphArrow};
+use serde_json::{json, Value};
+use std::sync::atomic::{AtomicU64, Ordering};
+
+type Check = fn(&mut Ctx, &Value);
+const CHECKS: &[(&str, Check)] = &[("validate", chk_validate), ("mono", chk_mono), ("convex", chk_convex), ("reindex", chk_reindex)];
+
+static ACCEPTED: AtomicU64 = AtomicU64::new(0);
+static REJ: [AtomicU64; 6] = [AtomicU64::new(0), AtomicU64::new(0), AtomicU64::new(0), AtomicU64::new(0), AtomicU64::new(0), AtomicU64::new(0)];
+static MONO_T: AtomicU64 = AtomicU64::new(0);
+static MONO_F: AtomicU64 = AtomicU64::new(0);
+static CONVEX_T: AtomicU64 = AtomicU64::new(0);
+static CONVEX_F_PATH: AtomicU64 = AtomicU64::new(0);
+static CONVEX_F_MONO: AtomicU64 = AtomicU64::new(0);
+
+#[derive(Clone, Debug)]
+struct In {
+    g: M,
+    h: M,
+    w: Vec<usize>,
+    wt: usize,
+    x: Vec<usize>,
+    xt: usize,
+}
+
+impl In {
+    fn json(&self) -> Value {
+        json!({"g": self.g.json(), "h": self.h.json(), "w": self.w, "wt": self.wt, "x": self.x, "xt": self.xt})
+    }
+    fn from_json(v: &Value) -> Option<In> {
+        let us = |v: &Value| -> Option<Vec<usize>> { v.as_array()?.iter().map(|x| x.as_u64().map(|y| y as usize)).collect() };
+        let i = In {
+            g: M::from_json(v.get("g")?)?,
+            h: M::from_json(v.get("h")?)?,
+            w: us(v.get("w")?)?,
+            wt: v.get("wt")?.as_u64()? as usize,
+            x: us(v.get("x")?)?,
+            xt: v.get("xt")?.as_u64()? as usize,
+        };
+        // two well-formed hypergraphs and two finite maps (every value below the declared codomain)
+        if i.g.valid() && i.h.valid() && i.w.iter().all(|&v| v < i.wt) && i.x.iter().all(|&v| v < i.xt) {
+            Some(i)
+        } else {
+            None
+        }
+    }
+}
+
+// ------------------------------------------------------------------------------------------------
+// watchdog: "returns an answer" includes termination.  The checks announce every library call
+// sequence (`enter`); if the same one is still running after LIMIT_S seconds, the watchdog writes a
+// report (same shape as Ctx::report) naming the input and the violated totality clause and exits 1.
+// ------------------------------------------------------------------------------------------------
+mod watchdog {
+    use serde_json::{json, Value};
+    use std::sync::atomic::{AtomicU64, Ordering};
+    use std::sync::{Mutex, Once};
+    use std::time::{Duration, Instant};
+
+    pub const LIMIT_S: u64 = 20;
+    static CUR: Mutex<Option<(String, String, String)>> = Mutex::new(None);
+    static TICK: AtomicU64 = AtomicU64::new(0);
+    static FAILS: Mutex<Vec<Value>> = Mutex::new(Vec::new());
+    static START: Once = Once::new();
+
+    pub fn start(property: &str, tier: &str, seed: u64, replay: bool) {
+        let (property, tier) = (property.to_string(), tier.to_string());
+        START.call_once(move || {
+            std::thread::spawn(move || {
+                let t0 = Instant::now();
+                let mut last = (u64::MAX, Instant::now());
+                loop {
+                    std::thread::sleep(Duration::from_millis(250));
+                    let tick = TICK.load(Ordering::SeqCst);
+                    if tick != last.0 {
+                        last = (tick, Instant::now());
+                        continue;
+                    }
+                    if last.1.elapsed().as_secs() < LIMIT_S {
+                        continue;
+                    }
+                    let cur = CUR.lock().map(|g| g.clone()).unwrap_or(None);
+                    if let Some((check, clause, input)) = cur {
+                        let input: Value = serde_json::from_str(&input).unwrap_or(Value::Null);
+                        let observed = format!("no answer within {} s: the call did not return", LIMIT_S);
+                        if replay {
+                            println!("replay: check={} clause={} input={} observed={} expected={}", check, clause, input, json!(observed), json!("an answer"));
+                        } else {
+                            let mut fails: Vec<Value> = FAILS.lock().map(|g| g.clone()).unwrap_or_default();
+                            fails.insert(0, json!({"check": check, "clause": clause, "input": input, "observed": observed, "expected": "an answer"}));
+                            let nfail = fails.len();
+                            let rep = json!({
+                                "property": property, "tier": tier, "seed": seed,
+                                "evaluations": tick, "distinct_nontrivial": 0, "per_check": {},
+                                "failures": fails,
+                                "samples": [], "notes": ["run aborted by the termination watchdog; counts are incomplete"],
+                                "wall_s": t0.elapsed().as_secs_f64(),
+                            });
+                            let args: Vec<String> = std::env::args().collect();
+                            if args.len() >= 6 && args[1] == "run" {
+                                let _ = std::fs::write(&args[5], serde_json::to_string_pretty(&rep).unwrap());
+                            }
+                            println!("bounded {}: aborted after {} evaluations, {} failures (first: check {} clause {}: call did not return)", property, tick, nfail, check, clause);
+                        }
+                        std::process::exit(1);
+                    }
+                }
+            });
+        });
+    }
+    pub fn record(f: Value) {
+        if let Ok(mut g) = FAILS.lock() {
+            if g.len() < 49 {
+                g.push(f);
+            }
+        }
+    }
+    /// announce the library calls made for one input
+    pub fn enter(check: &str, clause: &str, input: &Value) {
+        if let Ok(mut g) = CUR.lock() {
+            *g = Some((check.to_string(), clause.to_string(), input.to_string()));
+        }
+        TICK.fetch_add(1, Ordering::SeqCst);
+    }
+    pub fn leave() {
+        if let Ok(mut g) = CUR.lock() {
+            *g = None;
+        }
+        TICK.fetch_add(1, Ordering::SeqCst);
+    }
+}
+
+/// report a violated clause (and mirror it for the watchdog, whose abort report would otherwise lose it)
+fn fail(ctx: &mut Ctx, check: &str, clause: &str, input: &Value, observed: Value, expected: Value) {
+    watchdog::record(json!({"check": check, "clause": clause, "input": input, "observed": observed, "expected": expected}));
+    ctx.fail(check, clause, input, observed, expected);
+}
+
+// ------------------------------------------------------------------------------------------------
+// oracles
+// ------------------------------------------------------------------------------------------------
+struct Clauses {
+    typed_w: bool,
+    typed_x: bool,
+    labels_w: bool,
+    labels_x: bool,
+    sources: bool,
+    targets: bool,
+}
+
+impl Clauses {
+    fn all(&self) -> bool {
+        self.typed_w && self.typed_x && self.labels_w && self.labels_x && self.sources && self.targets
+    }
+    fn json(&self) -> Value {
+        json!({"typed_w": self.typed_w, "typed_x": self.typed_x, "labels_w": self.labels_w, "labels_x": self.labels_x, "sources": self.sources, "targets": self.targets})
+    }
+}
+
+fn lists_preserved(i: &In, gl: &[Vec<usize>], hl: &[Vec<usize>]) -> bool {
+    for e in 0..i.g.x.len() {
+        if e >= i.x.len() {
+            return false; // no image for this hyperedge
+        }
+        let fe = i.x[e];
+        if fe >= hl.len() {
+            return false;
+        }
+        let img = &hl[fe];
+        if gl[e].len() != img.len() {
+            return false;
+        }
+        for j in 0..img.len() {
+            let v = gl[e][j];
+            if v >= i.w.len() || i.w[v] != img[j] {
+                return false;
+            }
+        }
+    }
+    true
+}
+
+fn clauses(i: &In) -> Clauses {
+    let typed_w = i.wt == i.h.w.len();
+    let typed_x = i.xt == i.h.x.len();
+    // every clause is judged on its own condition only (a mistyped map whose values happen to be in
+    // range still preserves labels / lists elementwise; a value without an image element does not)
+    let (nh, kh) = (i.h.w.len(), i.h.x.len());
+    let labels_w = i.w.len() == i.g.w.len() && (0..i.w.len()).all(|k| i.w[k] < nh && i.g.w[k] == i.h.w[i.w[k]]);
+    let labels_x = i.x.len() == i.g.x.len() && (0..i.x.len()).all(|k| i.x[k] < kh && i.g.x[k] == i.h.x[i.x[k]]);
+    let sources = lists_preserved(i, &i.g.src, &i.h.src);
+    let targets = lists_preserved(i, &i.g.tgt, &i.h.tgt);
+    Clauses { typed_w, typed_x, labels_w, labels_x, sources, targets }
+}
+
+fn has_repeat(l: &[usize]) -> bool {
+    for i in 0..l.len() {
+        for j in 0..i {
+            if l[i] == l[j] {
+                return true;
+            }
+        }
+    }
+    false
+}
+
+/// rs[u][v] iff v is reachable from u in >= 0 steps
+fn reach_refl(m: &M) -> Vec<Vec<bool>> {
+    let n = m.w.len();
+    let mut r = vec![vec![false; n]; n];
+    for u in 0..n {
+        r[u][u] = true;
+    }
+    for e in 0..m.x.len() {
+        for &u in &m.src[e] {
+            for &v in &m.tgt[e] {
+                r[u][v] = true;
+            }
+        }
+    }
+    for k in 0..n {
+        for i in 0..n {
+            if r[i][k] {
+                for j in 0..n {
+                    if r[k][j] {
+                        r[i][j] = true;
+                    }
+                }
+            }
+        }
+    }
+    r
+}
+
+/// some directed path between two image nodes passes through a hyperedge outside the image
+fn outside_path(i: &In) -> Option<(usize, usize, usize)> {
+    let h = &i.h;
+    let rs = reach_refl(h);
+    for e in 0..h.x.len() {
+        if i.x.contains(&e) {
+            continue;
+        }
+        let mut entry = None;
+        for &u in &i.w {
+            if h.src[e].iter().any(|&a| rs[u][a]) {
+                entry = Some(u);
+                break;
+            }
+        }
+        let mut exit = None;
+        for &v in &i.w {
+            if h.tgt[e].iter().any(|&b| rs[b][v]) {
+                exit = Some(v);
+                break;
+            }
+        }
+        if let (Some(u), Some(v)) = (entry, exit) {
+            return Some((u, e, v));
+        }
+    }
+    None
+}
+
+// ------------------------------------------------------------------------------------------------
+// library side helpers
+// ------------------------------------------------------------------------------------------------
+fn ff(table: &[usize], target: usize) -> FF {
+    FiniteFunction::new(VecArray(table.to_vec()), target).expect("finite map: values below codomain")
+}
+
+fn h_model(h: &SH) -> Result<M, String> {
+    let n = h.w.0 .0.len();
+    let k = h.x.0 .0.len();
+    let src = ic_wf(&h.s, Some(k), Some(n)).map_err(|e| format!("s: {}", e))?;
+    let tgt = ic_wf(&h.t, Some(k), Some(n)).map_err(|e| format!("t: {}", e))?;
+    Ok(M { w: h.w.0 .0.clone(), x: h.x.0 .0.clone(), src, tgt, s: vec![], t: vec![] })
+}
+
+fn strip(m: &M) -> M {
+    let mut m = m.clone();
+    m.s = vec![];
+    m.t = vec![];
+    m
+}
+
+fn variant_index(e: &InvalidHypergraphArrow) -> usize {
+    match e {
+        InvalidHypergraphArrow::TypeMismatchW => 0,
+        InvalidHypergraphArrow::TypeMismatchX => 1,
+        InvalidHypergraphArrow::NotNaturalW => 2,
+        InvalidHypergraphArrow::NotNaturalX => 3,
+        InvalidHypergraphArrow::NotNaturalS => 4,
+        InvalidHypergraphArrow::NotNaturalT => 5,
+    }
+}
+
+// ------------------------------------------------------------------------------------------------
+// checks
+// ------------------------------------------------------------------------------------------------
+/// input: {"g","h","w","wt","x","xt"}
+fn chk_validate(ctx: &mut Ctx, input: &Value) {
+    let i = match In::from_json(input) {
+        Some(i) => i,
+        None => return,
+    };
+    ctx.case("validate", input, i.w.len() + i.x.len() > 0);
+    watchdog::enter("validate", "C18.validate-total", input);
+    let c = clauses(&i);
+    let (sg, sh) = (strip(&i.g).to_strict().h, strip(&i.h).to_strict().h);
+    let (fw, fx) = (ff(&i.w, i.wt), ff(&i.x, i.xt));
+    let got = guard(|| HypergraphArrow::new(sg, sh, fw, fx));
+    match got {
+        Err(p) => fail(ctx, "validate", "C18.validate-total", input, json!(format!("panic: {}", p)), c.json()),
+        Ok(Ok(a)) => {
+            ACCEPTED.fetch_add(1, Ordering::Relaxed);
+            if !c.all() {
+                fail(ctx, "validate", "C18.accept-iff", input, json!("accepted"), c.json());
+            }
+            // the accepted arrow carries exactly what was given
+            let same = a.w.table.0 == i.w
+                && a.w.target == i.wt
+                && a.x.table.0 == i.x
+                && a.x.target == i.xt
+                && h_model(&a.source).as_ref() == Ok(&strip(&i.g))
+                && h_model(&a.target).as_ref() == Ok(&strip(&i.h));
+            if !same {
+                fail(ctx, "validate", "C18.accepted-arrow-is-the-input", input, json!(format!("{:?}", a)), json!("same g, h, w, x"));
+            }
+        }
+        Ok(Err(e)) => {
+            let v = variant_index(&e);
+            REJ[v].fetch_add(1, Ordering::Relaxed);
+            if c.all() {
+                fail(ctx, "validate", "C18.accept-iff", input, json!(format!("rejected: {:?}", e)), json!("accepted (all clauses hold)"));
+            } else {
+                let named_holds = [c.typed_w, c.typed_x, c.labels_w, c.labels_x, c.sources, c.targets][v];
+                if named_holds {
+                    fail(ctx, "validate", "C18.rejection-names-failing-condition", input, json!(format!("{:?}", e)), c.json());
+                }
+            }
+        }
+    }
+}
+
+/// input: as validate; evaluated when both maps go between the node / hyperedge sets (natural or not)
+fn chk_mono(ctx: &mut Ctx, input: &Value) {
+    let i = match In::from_json(input) {
+        Some(i) => i,
+        None => return,
+    };
+    if !(i.w.len() == i.g.w.len() && i.wt == i.h.w.len() && i.x.len() == i.g.x.len() && i.xt == i.h.x.len()) {
+        return;
+    }
+    ctx.case("mono", input, i.w.len() + i.x.len() > 0);
+    watchdog::enter("mono", "C18.mono-total", input);
+    let expected = !has_repeat(&i.w) && !has_repeat(&i.x);
+    if expected {
+        MONO_T.fetch_add(1, Ordering::Relaxed);
+    } else {
+        MONO_F.fetch_add(1, Ordering::Relaxed);
+    }
+    let a = HypergraphArrow { source: strip(&i.g).to_strict().h, target: strip(&i.h).to_strict().h, w: ff(&i.w, i.wt), x: ff(&i.x, i.xt) };
+    match guard(|| a.is_monomorphism()) {
+        Err(p) => fail(ctx, "mono", "C18.mono-total", input, json!(format!("panic: {}", p)), json!(expected)),
+        Ok(got) => {
+            if got != expected {
+                fail(ctx, "mono", "C18.mono-iff", input, json!(got), json!(expected));
+            }
+        }
+    }
+}
+
+/// input: as validate; evaluated when (g, h, w, x) is a morphism by the oracle
+fn chk_convex(ctx: &mut Ctx, input: &Value) {
+    let i = match In::from_json(input) {
+        Some(i) => i,
+        None => return,
+    };
+    if !clauses(&i).all() {
+        return;
+    }
+    let has_step = (0..i.h.x.len()).any(|e| !i.h.src[e].is_empty() && !i.h.tgt[e].is_empty());
+    ctx.case("convex", input, has_step);
+    watchdog::enter("convex", "C18.convex-total", input);
+    let mono = !has_repeat(&i.w) && !has_repeat(&i.x);
+    let witness = outside_path(&i);
+    let expected = mono && witness.is_none();
+    if expected {
+        CONVEX_T.fetch_add(1, Ordering::Relaxed);
+    } else if !mono {
+        CONVEX_F_MONO.fetch_add(1, Ordering::Relaxed);
+    } else {
+        CONVEX_F_PATH.fetch_add(1, Ordering::Relaxed);
+    }
+    let a = HypergraphArrow { source: strip(&i.g).to_strict().h, target: strip(&i.h).to_strict().h, w: ff(&i.w, i.wt), x: ff(&i.x, i.xt) };
+    match guard(|| a.is_convex_subgraph()) {
+        Err(p) => fail(ctx, "convex", "C18.convex-total", input, json!(format!("panic: {}", p)), json!(expected)),
+        Ok(got) => {
+            if got != expected {
+                let clause = if !mono { "C18.convex-requires-mono" } else { "C18.convex-iff" };
+                fail(ctx, "convex", clause, input, json!(got), json!({"expected": expected, "mono": mono, "outside_path(from,edge,to)": witness.map(|(u, e, v)| vec![u, e, v])}));
+            }
+        }
+    }
+}
+
+/// input: {"segs": [[..]], "n": codomain, "x": [..], "xt": .., "f": [..], "ft": ..}
+/// map_indexes(x) = the segments [segs[x[0]], segs[x[1]], ..] (None iff xt != number of segments);
+/// map_values(f)  = every value v replaced by f[v]          (None iff len(f) != n)
+fn chk_reindex(ctx: &mut Ctx, input: &Value) {
+    let us = |v: &Value| -> Option<Vec<usize>> { v.as_array()?.iter().map(|x| x.as_u64().map(|y| y as usize)).collect() };
+    let parse = || -> Option<(Vec<Vec<usize>>, usize, Vec<usize>, usize, Vec<usize>, usize)> {
+        let segs: Option<Vec<Vec<usize>>> = input.get("segs")?.as_array()?.iter().map(|l| us(l)).collect();
+        Some((segs?, input.get("n")?.as_u64()? as usize, us(input.get("x")?)?, input.get("xt")?.as_u64()? as usize, us(input.get("f")?)?, input.get("ft")?.as_u64()? as usize))
+    };
+    let (segs, n, x, xt, f, ft) = match parse() {
+        Some(p) => p,
+        None => return,
+    };
+    if segs.iter().flatten().any(|&v| v >= n) || x.iter().any(|&v| v >= xt) || f.iter().any(|&v| v >= ft) {
+        return;
+    }
+    ctx.case("reindex", input, !segs.is_empty() && !x.is_empty());
+    watchdog::enter("reindex", "C18.reindex-total", input);
+    let sizes: Vec<usize> = segs.iter().map(|l| l.len()).collect();
+    let vals: Vec<usize> = segs.iter().flatten().cloned().collect();
+    let c: IC = IndexedCoproduct::from_semifinite(SemifiniteFunction(VecArray(sizes)), ff(&vals, n)).unwrap();
+    // map_indexes
+    let exp_idx: Option<Vec<Vec<usize>>> = if xt == segs.len() { Some(x.iter().map(|&k| segs[k].clone()).collect()) } else { None };
+    let fx = ff(&x, xt);
+    match guard(|| c.map_indexes(&fx)) {
+        Err(p) => fail(ctx, "reindex", "C18.reindex-total", input, json!(format!("map_indexes panicked: {}", p)), json!(exp_idx)),
+        Ok(None) => {
+            if exp_idx.is_some() {
+                fail(ctx, "reindex", "C18.map-indexes", input, json!("None"), json!(exp_idx));
+            }
+        }
+        Ok(Some(r)) => match (ic_wf(&r, Some(x.len()), Some(n)), &exp_idx) {
+            (Ok(got), Some(e)) if &got == e => {}
+            (got, e) => fail(ctx, "reindex", "C18.map-indexes", input, json!(format!("{:?}", got)), json!(e)),
+        },
+    }
+    // map_values
+    let exp_val: Option<Vec<Vec<usize>>> = if f.len() == n { Some(segs.iter().map(|l| l.iter().map(|&v| f[v]).collect()).collect()) } else { None };
+    let fv = ff(&f, ft);
+    match guard(|| c.map_values(&fv)) {
+        Err(p) => fail(ctx, "reindex", "C18.reindex-total", input, json!(format!("map_values panicked: {}", p)), json!(exp_val)),
+        Ok(None) => {
+            if exp_val.is_some() {
+                fail(ctx, "reindex", "C18.map-values", input, json!("None"), json!(exp_val));
+            }
+        }
+        Ok(Some(r)) => match (ic_wf(&r, Some(segs.len()), Some(ft)), &exp_val) {
+            (Ok(got), Some(e)) if &got == e => {}
+            (got, e) => fail(ctx, "reindex", "C18.map-values", input, json!(format!("{:?}", got)), json!(e)),
+        },
+    }
+}
+
+fn all_checks(ctx: &mut Ctx, i: &In) {
+    let input = i.json();
+    chk_validate(ctx, &input);
+    chk_mono(ctx, &input);
+    chk_convex(ctx, &input);
+}
+
+// ------------------------------------------------------------------------------------------------
+// generators
+// ------------------------------------------------------------------------------------------------
+fn perm(r: &mut Rng, n: usize) -> Vec<usize> {
+    let mut p: Vec<usize> = (0..n).collect();
+    for i in (1..n).rev() {
+        let j = r.below(i + 1);
+        p.swap(i, j);
+    }
+    p
+}
+
+fn lists(n: usize, maxlen: usize) -> Vec<Vec<usize>> {
+    let mut out = vec![vec![]];
+    let mut last: Vec<Vec<usize>> = vec![vec![]];
+    for _ in 0..maxlen {
+        let mut next = vec![];
+        for l in &last {
+            for v in 0..n {
+                let mut l2 = l.clone();
+                l2.push(v);
+                next.push(l2);
+            }
+        }
+        out.extend(next.iter().cloned());
+        last = next;
+    }
+    out
+}
+
+/// every hypergraph on `n` nodes with exactly k hyperedges, lists from `ls`, labels from the given sets
+fn hypergraphs(n: usize, k: usize, ls: &[Vec<usize>], nlabels: usize, elabels: usize) -> Vec<M> {
+    let mut out = vec![];
+    // digits: n node labels, then per edge (label, src, tgt)
+    let mut radix = vec![nlabels; n];
+    for _ in 0..k {
+        radix.push(elabels);
+        radix.push(ls.len());
+        radix.push(ls.len());
+    }
+    let mut idx = vec![0usize; radix.len()];
+    loop {
+        out.push(M {
+            w: (0..n).map(|i| idx[i] as u8).collect(),
+            x: (0..k).map(|e| 10 + idx[n + 3 * e] as u8).collect(),
+            src: (0..k).map(|e| ls[idx[n + 3 * e + 1]].clone()).collect(),
+            tgt: (0..k).map(|e| ls[idx[n + 3 * e + 2]].clone()).collect(),
+            s: vec![],
+            t: vec![],
+        });
+        let mut p = 0;
+        loop {
+            if p == idx.len() {
+                return out;
+            }
+            idx[p] += 1;
+            if idx[p] < radix[p] {
+                break;
+            }
+            idx[p] = 0;
+            p += 1;
+        }
+    }
+}
+
+/// all maps a -> b as tables
+fn all_maps(a: usize, b: usize) -> Vec<Vec<usize>> {
+    let mut out = vec![vec![]];
+    for _ in 0..a {
+        let mut next = vec![];
+        for m in &out {
+            for v in 0..b {
+                let mut m2 = m.clone();
+                m2.push(v);
+                next.push(m2);
+            }
+        }
+        out = next;
+    }
+    out
+}
+
+/// the sub-hypergraph of h on the node list `ns` (distinct) and hyperedge list `es` (distinct; all
+/// incident nodes must be in `ns`), numbered in the order given, with its inclusion
+fn inclusion(h: &M, ns: &[usize], es: &[usize]) -> In {
+    let mut pos = vec![usize::MAX; h.w.len()];
+    for (k, &v) in ns.iter().enumerate() {
+        pos[v] = k;
+    }
+    let mp = |l: &Vec<usize>| l.iter().map(|&v| pos[v]).collect::<Vec<_>>();
+    let g = M {
+        w: ns.iter().map(|&v| h.w[v]).collect(),
+        x: es.iter().map(|&e| h.x[e]).collect(),
+        src: es.iter().map(|&e| mp(&h.src[e])).collect(),
+        tgt: es.iter().map(|&e| mp(&h.tgt[e])).collect(),
+        s: vec![],
+        t: vec![],
+    };
+    In { g, h: strip(h), w: ns.to_vec(), wt: h.w.len(), x: es.to_vec(), xt: h.x.len() }
+}
+
+/// random sub-hypergraph: hyperedges with probability pe, extra nodes with probability pn (in 1/4ths)
+fn gen_inclusion(r: &mut Rng, h: &M, pe: usize, pn: usize) -> In {
+    let mut es: Vec<usize> = (0..h.x.len()).filter(|_| r.chance(pe, 4)).collect();
+    let mut need = vec![false; h.w.len()];
+    for &e in &es {
+        for &v in h.src[e].iter().chain(h.tgt[e].iter()) {
+            need[v] = true;
+        }
+    }
+    let mut ns: Vec<usize> = (0..h.w.len()).filter(|&v| need[v] || r.chance(pn, 4)).collect();
+    // random numbering of the subobject (the inclusion need not be monotone)
+    let p = perm(r, ns.len());
+    ns = p.iter().map(|&k| ns[k]).collect();
+    let q = perm(r, es.len());
+    es = q.iter().map(|&k| es[k]).collect();
+    inclusion(h, &ns, &es)
+}
+
+/// disjoint union of two arrows into the same h (copairing): a morphism, injective iff the images are disjoint
+fn copair(a: &In, b: &In) -> In {
+    let g = tensor(&a.g, &b.g);
+    In { g, h: a.h.clone(), w: [a.w.clone(), b.w.clone()].concat(), wt: a.wt, x: [a.x.clone(), b.x.clone()].concat(), xt: a.xt }
+}
+
+/// a morphism into h built backwards: choose images first, then g's incidence among the preimages
+fn gen_natural(r: &mut Rng, h: &M) -> In {
+    let nh = h.w.len();
+    let kg = if h.x.is_empty() { 0 } else { r.range(0, 4) };
+    let x = r.vec_below(kg, h.x.len().max(1));
+    let n0 = if nh == 0 { 0 } else { r.range(0, 4) };
+    let mut w: Vec<usize> = r.vec_below(n0, nh.max(1));
+    let pick = |r: &mut Rng, w: &mut Vec<usize>, v: usize| -> usize {
+        let pre: Vec<usize> = (0..w.len()).filter(|&k| w[k] == v).collect();
+        if pre.is_empty() || r.chance(1, 4) {
+            w.push(v);
+            w.len() - 1
+        } else {
+            pre[r.below(pre.len())]
+        }
+    };
+    let mut src = vec![];
+    let mut tgt = vec![];
+    for &e in &x {
+        src.push(h.src[e].iter().map(|&v| pick(r, &mut w, v)).collect::<Vec<_>>());
+        tgt.push(h.tgt[e].iter().map(|&v| pick(r, &mut w, v)).collect::<Vec<_>>());
+    }
+    let g = M { w: w.iter().map(|&v| h.w[v]).collect(), x: x.iter().map(|&e| h.x[e]).collect(), src, tgt, s: vec![], t: vec![] };
+    In { g, h: strip(h), w, wt: nh, x, xt: h.x.len() }
+}
+
+/// one small edit; the oracle decides whether the result is still a morphism
+fn mutate(r: &mut Rng, i: &mut In) {
+    let (ng, kg) = (i.g.w.len(), i.g.x.len());
+    match r.below(16) {
+        0 => {
+            if ng > 0 {
+                let k = r.below(ng);
+                i.g.w[k] ^= 1;
+            }
+        }
+        1 => {
+            if kg > 0 {
+                let k = r.below(kg);
+                i.g.x[k] ^= 1;
+            }
+        }
+        2 => {
+            // replace an incidence by another node of g (may have the same image: stays natural)
+            if kg > 0 && ng > 0 {
+                let e = r.below(kg);
+                let l = if r.chance(1, 2) { &mut i.g.src[e] } else { &mut i.g.tgt[e] };
+                if !l.is_empty() {
+                    let j = r.below(l.len());
+                    l[j] = r.below(ng);
+                }
+            }
+        }
+        3 => {
+            if kg > 0 {
+                let e = r.below(kg);
+                let l = if r.chance(1, 2) { &mut i.g.src[e] } else { &mut i.g.tgt[e] };
+                if r.chance(1, 2) {
+                    l.pop();
+                } else if ng > 0 {
+                    l.push(r.below(ng));
+                }
+            }
+        }
+        4 => {
+            if kg > 0 {
+                let e = r.below(kg);
+                let l = if r.chance(1, 2) { &mut i.g.src[e] } else { &mut i.g.tgt[e] };
+                if l.len() >= 2 {
+                    let a = r.below(l.len());
+                    let b = r.below(l.len());
+                    l.swap(a, b);
+                }
+            }
+        }
+        5 => {
+            if kg > 0 {
+                let e = r.below(kg);
+                std::mem::swap(&mut i.g.src[e], &mut i.g.tgt[e]);
+            }
+        }
+        6 => {
+            if !i.w.is_empty() && i.wt > 0 {
+                let k = r.below(i.w.len());
+                i.w[k] = r.below(i.wt);
+            }
+        }
+        7 => {
+            if !i.x.is_empty() && i.xt > 0 {
+                let k = r.below(i.x.len());
+                i.x[k] = r.below(i.xt);
+            }
+        }
+        8 => {
+            // mistype w
+            if r.chance(1, 2) || i.wt == 0 || i.w.iter().any(|&v| v + 1 >= i.wt) {
+                i.wt += r.range(1, 2);
+            } else {
+                i.wt -= 1;
+            }
+        }
+        9 => {
+            if r.chance(1, 2) || i.xt == 0 || i.x.iter().any(|&v| v + 1 >= i.xt) {
+                i.xt += r.range(1, 2);
+            } else {
+                i.xt -= 1;
+            }
+        }
+        10 => {
+            if r.chance(1, 2) {
+                i.w.pop();
+            } else if i.wt > 0 {
+                i.w.push(r.below(i.wt));
+            }
+        }
+        11 => {
+            if r.chance(1, 2) {
+                i.x.pop();
+            } else if i.xt > 0 {
+                i.x.push(r.below(i.xt));
+            }
+        }
+        12 => {
+            // move a list boundary between two consecutive hyperedges of g (flattened values unchanged)
+            if kg >= 2 {
+                let e = r.below(kg - 1);
+                let src = r.chance(1, 2);
+                let ls = if src { &mut i.g.src } else { &mut i.g.tgt };
+                if let Some(v) = ls[e].pop() {
+                    ls[e + 1].insert(0, v);
+                } else if !ls[e + 1].is_empty() {
+                    let v = ls[e + 1].remove(0);
+                    ls[e].push(v);
+                }
+            }
+        }
+        13 => {
+            // edit the codomain hypergraph: label or incidence
+            let (nh, kh) = (i.h.w.len(), i.h.x.len());
+            if r.chance(1, 2) {
+                if nh > 0 {
+                    let k = r.below(nh);
+                    i.h.w[k] ^= 1;
+                }
+            } else if kh > 0 && nh > 0 {
+                let e = r.below(kh);
+                let l = if r.chance(1, 2) { &mut i.h.src[e] } else { &mut i.h.tgt[e] };
+                if !l.is_empty() {
+                    let j = r.below(l.len());
+                    l[j] = r.below(nh);
+                } else {
+                    l.push(r.below(nh));
+                }
+            }
+        }
+        14 => {
+            // move an element from the source list to the target list of the same hyperedge
+            if kg > 0 {
+                let e = r.below(kg);
+                if let Some(v) = i.g.src[e].pop() {
+                    i.g.tgt[e].insert(0, v);
+                }
+            }
+        }
+        _ => {
+            // add a node or a hyperedge to g without extending the maps
+            if r.chance(1, 2) {
+                i.g.w.push(0);
+            } else {
+                i.g.x.push(10);
+                i.g.src.push(vec![]);
+                i.g.tgt.push(vec![]);
+            }
+        }
+    }
+}
+
+/// codomains for convexity: mostly unary/binary hyperedges, cycles likely, isolated nodes possible
+fn gen_host(r: &mut Rng, max_nodes: usize, max_edges: usize) -> M {
+    let n = r.range(1, max_nodes);
+    let k = r.range(0, max_edges);
+    let mut m = M { w: (0..n).map(|_| r.below(2) as u8).collect(), ..M::empty() };
+    let touch = r.range(1, n); // nodes >= touch are never touched by a hyperedge
+    let acyclic = r.chance(1, 3);
+    for _ in 0..k {
+        let a = [0, 1, 1, 1, 2][r.below(5)];
+        let b = [0, 1, 1, 1, 2, 3][r.below(6)];
+        let mut src = r.vec_below(a, touch);
+        let mut tgt = r.vec_below(b, touch);
+        if acyclic {
+            // orient along the numbering
+            let lo = src.iter().cloned().max().unwrap_or(0);
+            for v in tgt.iter_mut() {
+                if *v <= lo {
+                    *v = (lo + 1 + r.below(touch)).min(touch);
+                }
+            }
+            tgt.retain(|&v| v < touch);
+            if r.chance(1, 8) {
+                std::mem::swap(&mut src, &mut tgt);
+            }
+        }
+        m.x.push(10 + r.below(2) as u8);
+        m.src.push(src);
+        m.tgt.push(tgt);
+    }
+    m
+}
+
+fn path_host(len: usize, close: bool, doubled: bool) -> M {
+    let mut m = M { w: vec![0; len + 1], ..M::empty() };
+    for i in 0..len {
+        m.x.push(10);
+        m.src.push(vec![i]);
+        m.tgt.push(vec![i + 1]);
+        if doubled {
+            m.x.push(10);
+            m.src.push(vec![i, i]);
+            m.tgt.push(vec![i + 1, i + 1]);
+        }
+    }
+    if close {
+        m.x.push(10);
+        m.src.push(vec![len]);
+        m.tgt.push(vec![0]);
+    }
+    m
+}
+
+/// all sub-hypergraphs (node subset, hyperedge subset with incident nodes inside) of h, numbered monotonically
+fn for_each_sub(h: &M, f: &mut dyn FnMut(In)) {
+    let (n, k) = (h.w.len(), h.x.len());
+    for em in 0..(1usize << k) {
+        let es: Vec<usize> = (0..k).filter(|e| em >> e & 1 == 1).collect();
+        let mut need = 0usize;
+        for &e in &es {
+            for &v in h.src[e].iter().chain(h.tgt[e].iter()) {
+                need |= 1 << v;
+            }
+        }
+        for nm in 0..(1usize << n) {
+            if nm & need != need {
+                continue;
+            }
+            let ns: Vec<usize> = (0..n).filter(|v| nm >> v & 1 == 1).collect();
+            f(inclusion(h, &ns, &es));
+        }
+    }
+}
+
+fn corners() -> Vec<In> {
+    let e = M::empty;
+    let mut out = vec![];
+    // identity and empty inclusion on every corner model
+    let mut hosts = corner_models();
+    // the triangle of the library's own tests, plus variants
+    hosts.push(M { w: vec![0; 3], x: vec![10; 3], src: vec![vec![0], vec![1], vec![0]], tgt: vec![vec![1], vec![2], vec![2]], ..e() });
+    hosts.push(M { w: vec![0; 3], x: vec![10; 3], src: vec![vec![0], vec![1], vec![2]], tgt: vec![vec![1], vec![2], vec![0]], ..e() });
+    hosts.push(M { w: vec![0; 2], x: vec![10; 3], src: vec![vec![0]; 3], tgt: vec![vec![1]; 3], ..e() });
+    hosts.push(M { w: vec![0, 0, 1], x: vec![10], src: vec![vec![0, 0]], tgt: vec![vec![1, 1]], ..e() });
+    hosts.push(M { w: vec![0], x: vec![10, 10], src: vec![vec![0], vec![]], tgt: vec![vec![0], vec![]], ..e() });
+    for h in &hosts {
+        let (n, k) = (h.w.len(), h.x.len());
+        out.push(inclusion(h, &(0..n).collect::<Vec<_>>(), &(0..k).collect::<Vec<_>>()));
+        out.push(inclusion(h, &(0..n).rev().collect::<Vec<_>>(), &(0..k).rev().collect::<Vec<_>>()));
+        out.push(inclusion(h, &[], &[]));
+        out.push(inclusion(h, &(0..n).collect::<Vec<_>>(), &[]));
+        // codiagonal h + h -> h (not injective unless h is empty)
+        let id = inclusion(h, &(0..n).collect::<Vec<_>>(), &(0..k).collect::<Vec<_>>());
+        out.push(copair(&id, &id));
+        // mistyped copies
+        let mut a = id.clone();
+        a.wt += 1;
+        out.push(a);
+        let mut a = id.clone();
+        a.xt += 1;
+        out.push(a);
+        let mut a = id.clone();
+        a.wt += 1;
+        a.xt += 1;
+        out.push(a);
+    }
+    // two parallel hyperedges folded onto one (valid, not injective on hyperedges only)
+    let h = M { w: vec![0, 1], x: vec![10], src: vec![vec![0]], tgt: vec![vec![1]], ..e() };
+    let g = M { w: vec![0, 1], x: vec![10, 10], src: vec![vec![0]; 2], tgt: vec![vec![1]; 2], ..e() };
+    out.push(In { g, h: h.clone(), w: vec![0, 1], wt: 2, x: vec![0, 0], xt: 1 });
+    // two isolated nodes folded onto one (not injective on nodes only)
+    out.push(In { g: M { w: vec![0, 0], ..e() }, h: M { w: vec![0], ..e() }, w: vec![0, 0], wt: 1, x: vec![], xt: 0 });
+    // same flattened values, different segmentation
+    let h2 = M { w: vec![0; 3], x: vec![10, 10], src: vec![vec![0, 1], vec![2]], tgt: vec![vec![], vec![]], ..e() };
+    let g2 = M { w: vec![0; 3], x: vec![10, 10], src: vec![vec![0], vec![1, 2]], tgt: vec![vec![], vec![]], ..e() };
+    out.push(In { g: g2, h: h2, w: vec![0, 1, 2], wt: 3, x: vec![0, 1], xt: 2 });
+    // sources and targets exchanged
+    let h3 = M { w: vec![0; 2], x: vec![10], src: vec![vec![0]], tgt: vec![vec![1]], ..e() };
+    let g3 = M { w: vec![0; 2], x: vec![10], src: vec![vec![1]], tgt: vec![vec![0]], ..e() };
+    out.push(In { g: g3.clone(), h: h3.clone(), w: vec![0, 1], wt: 2, x: vec![0], xt: 1 });
+    out.push(In { g: g3, h: h3, w: vec![1, 0], wt: 2, x: vec![0], xt: 1 });
+    // leave-and-re-enter through three outside hyperedges; image = the two end nodes / one end node
+    let p = path_host(4, false, false);
+    out.push(inclusion(&p, &[0, 4], &[]));
+    out.push(inclusion(&p, &[4, 0], &[]));
+    out.push(inclusion(&p, &[0], &[]));
+    out.push(inclusion(&p, &[0, 1, 3, 4], &[0, 3]));
+    out.push(inclusion(&p, &[0, 1, 2, 3, 4], &[0, 1, 3]));
+    // cycle: one node / all nodes and all but one hyperedge
+    let c = path_host(3, true, false);
+    out.push(inclusion(&c, &[2], &[]));
+    out.push(inclusion(&c, &[0, 1, 2, 3], &[0, 1, 2]));
+    out.push(inclusion(&c, &[0, 1, 2, 3], &[3, 2, 1, 0]));
+    out
+}
+
+pub fn run(ctx: &mut Ctx) {
+    watchdog::start(&ctx.property, &ctx.tier, ctx.seed, ctx.replay.is_some());
+    if let Some((name, input)) = ctx.replay.clone() {
+        for (n, c) in CHECKS {
+            if *n == name {
+                c(ctx, &input);
+            }
+        }
+        watchdog::leave();
+        return;
+    }
+    let thorough = ctx.thorough();
+
+    // (a) corner cases
+    for i in corners() {
+        all_checks(ctx, &i);
+    }
+
+    // (b1) exhaustive validation: all pairs of tiny labelled hypergraphs, all typed maps, plus mistyped variants
+    {
+        let mut tiny: Vec<M> = vec![];
+        for n in 0..=2usize {
+            let ls = lists(n, 1);
+            for k in 0..=1usize {
+                tiny.extend(hypergraphs(n, k, &ls, 2, 2));
+            }
+        }
+        for g in &tiny {
+            for h in &tiny {
+                let (wt, xt) = (h.w.len(), h.x.len());
+                for w in all_maps(g.w.len(), wt) {
+                    for x in all_maps(g.x.len(), xt) {
+                        let i = In { g: g.clone(), h: h.clone(), w: w.clone(), wt, x, xt };
+                        all_checks(ctx, &i);
+                    }
+                }
+                // mistyped: codomain one too large / map one too short / one too long
+                let w0: Vec<usize> = vec![0; g.w.len()];
+                let x0: Vec<usize> = vec![0; g.x.len()];
+                let variants = [
+                    In { g: g.clone(), h: h.clone(), w: w0.clone(), wt: wt + 1, x: x0.clone(), xt: xt.max(1) },
+                    In { g: g.clone(), h: h.clone(), w: w0.clone(), wt: wt.max(1), x: x0.clone(), xt: xt + 1 },
+                    In { g: g.clone(), h: h.clone(), w: w0[..g.w.len().saturating_sub(1)].to_vec(), wt: wt.max(1), x: x0.clone(), xt: xt.max(1) },
+                    In { g: g.clone(), h: h.clone(), w: w0.clone(), wt: wt.max(1), x: [x0.clone(), vec![0]].concat(), xt: xt.max(1) },
+                ];
+                for v in variants.iter() {
+                    chk_validate(ctx, &v.json());
+                }
+            }
+        }
+    }
+    // two-edge hypergraphs with unary lists on <= 2 nodes, one label: all typed maps among them
+    {
+        let mut two: Vec<M> = vec![];
+        for n in 1..=2usize {
+            let ls = lists(n, 1);
+            two.extend(hypergraphs(n, 2, &ls, 1, 1));
+        }
+        let stride = if thorough { 1 } else { 5 };
+        let mut c = 0usize;
+        for g in &two {
+            for h in &two {
+                c += 1;
+                if c % stride != 0 {
+                    continue;
+                }
+                for w in all_maps(g.w.len(), h.w.len()) {
+                    for x in all_maps(2, 2) {
+                        let i = In { g: g.clone(), h: h.clone(), w: w.clone(), wt: h.w.len(), x, xt: 2 };
+                        all_checks(ctx, &i);
+                    }
+                }
+            }
+        }
+    }
+
+    // (b2) exhaustive convexity: every sub-hypergraph of every small host
+    {
+        // hosts: <=2 nodes, <=2 hyperedges, lists of length <=2; 3 nodes with <=3 unary hyperedges
+        let mut hosts: Vec<M> = vec![];
+        for n in 0..=2usize {
+            let ls = lists(n, 2);
+            for k in 0..=2usize {
+                hosts.extend(hypergraphs(n, k, &ls, 1, 1));
+            }
+        }
+        let unary3: Vec<Vec<usize>> = (0..3).map(|v| vec![v]).collect();
+        for k in 0..=3usize {
+            hosts.extend(hypergraphs(3, k, &unary3, 1, 1));
+        }
+        if thorough {
+            let unary4: Vec<Vec<usize>> = (0..4).map(|v| vec![v]).collect();
+            hosts.extend(hypergraphs(4, 3, &unary4, 1, 1));
+            let ls3 = lists(3, 2);
+            hosts.extend(hypergraphs(3, 2, &ls3, 1, 1));
+        }
+        for h in &hosts {
+            for_each_sub(h, &mut |i| {
+                let input = i.json();
+                chk_convex(ctx, &input);
+            });
+        }
+    }
+
+    // (c) random
+    let n = ctx.budget(2500, 200000);
+    for it in 0..n {
+        match it % 5 {
+            0 => {
+                // morphism by construction, then 0..2 edits
+                let b = [SMALL, MEDIUM][ctx.rng.below(2)];
+                let h = strip(&random_model(&mut ctx.rng, b));
+                let mut i = gen_natural(&mut ctx.rng, &h);
+                let edits = [0, 1, 1, 2][ctx.rng.below(4)];
+                for _ in 0..edits {
+                    mutate(&mut ctx.rng, &mut i);
+                }
+                all_checks(ctx, &i);
+            }
+            1 => {
+                // arbitrary pair of hypergraphs and arbitrary maps (typed with probability 1/2)
+                let g = strip(&random_model(&mut ctx.rng, SMALL));
+                let h = strip(&random_model(&mut ctx.rng, SMALL));
+                let typed = ctx.rng.chance(1, 2);
+                let wt = if typed { h.w.len() } else { ctx.rng.range(0, 4) };
+                let xt = if typed { h.x.len() } else { ctx.rng.range(0, 3) };
+                let wl = if typed || ctx.rng.chance(1, 2) { g.w.len() } else { ctx.rng.range(0, 4) };
+                let xl = if typed || ctx.rng.chance(1, 2) { g.x.len() } else { ctx.rng.range(0, 3) };
+                let w = if wt == 0 { vec![] } else { ctx.rng.vec_below(wl, wt) };
+                let x = if xt == 0 { vec![] } else { ctx.rng.vec_below(xl, xt) };
+                all_checks(ctx, &In { g, h, w, wt, x, xt });
+            }
+            2 | 3 => {
+                // sub-hypergraph inclusions into hosts with cycles, parallel/repeated incidences, untouched nodes
+                let h = match ctx.rng.below(4) {
+                    0 => strip(&random_model(&mut ctx.rng, MEDIUM)),
+                    _ => gen_host(&mut ctx.rng, 7, 8),
+                };
+                let pe = ctx.rng.below(5);
+                let pn = ctx.rng.below(5);
+                let i = gen_inclusion(&mut ctx.rng, &h, pe, pn);
+                if ctx.rng.chance(1, 6) {
+                    // a second inclusion glued on: morphism, injective only if the images are disjoint
+                    let j = gen_inclusion(&mut ctx.rng, &h, pe, pn);
+                    all_checks(ctx, &copair(&i, &j));
+                } else {
+                    all_checks(ctx, &i);
+                }
+            }
+            _ => {
+                // long paths / cycles with random image
+                let len = ctx.rng.range(2, 9);
+                let h = path_host(len, ctx.rng.chance(1, 2), ctx.rng.chance(1, 4));
+                let pe = ctx.rng.below(5);
+                let pn = ctx.rng.below(5);
+                let i = gen_inclusion(&mut ctx.rng, &h, pe, pn);
+                all_checks(ctx, &i);
+            }
+        }
+    }
+
+    // reindexing routines: corner list + random
+    {
+        let fixed = [
+            json!({"segs": [], "n": 0, "x": [], "xt": 0, "f": [], "ft": 0}),
+            json!({"segs": [], "n": 3, "x": [], "xt": 0, "f": [0, 0, 0], "ft": 1}),
+            json!({"segs": [[], [], []], "n": 0, "x": [2, 2, 0, 1], "xt": 3, "f": [], "ft": 5}),
+            json!({"segs": [[0, 1], [], [2, 2, 2]], "n": 3, "x": [2, 0, 2, 1, 1], "xt": 3, "f": [1, 1, 0], "ft": 2}),
+            json!({"segs": [[0, 1], [], [2, 2, 2]], "n": 3, "x": [], "xt": 3, "f": [1, 1, 0], "ft": 2}),
+            json!({"segs": [[0, 1], [1]], "n": 2, "x": [0], "xt": 3, "f": [0], "ft": 1}),
+            json!({"segs": [[0, 1], [1]], "n": 2, "x": [0, 0, 0, 0, 0, 0], "xt": 2, "f": [0, 0, 0], "ft": 1}),
+        ];
+        for f in fixed.iter() {
+            chk_reindex(ctx, f);
+        }
+        let m = ctx.budget(800, 40000);
+        for _ in 0..m {
+            let r = &mut ctx.rng;
+            let n = r.range(0, 4);
+            let k = r.range(0, 4);
+            let segs: Vec<Vec<usize>> = (0..k).map(|_| if n == 0 { vec![] } else { let l = r.range(0, 3); r.vec_below(l, n) }).collect();
+            let xt = if r.chance(3, 4) { k } else { r.range(0, 5) };
+            let xl = r.range(0, 5);
+            let x = if xt == 0 { vec![] } else { r.vec_below(xl, xt) };
+            let fl = if r.chance(3, 4) { n } else { r.range(0, 5) };
+            let ft = r.range(0, 4);
+            let f = if ft == 0 { vec![] } else { r.vec_below(fl, ft) };
+            let ft = if f.len() != fl { 0 } else { ft };
+            chk_reindex(ctx, &json!({"segs": segs, "n": n, "x": x, "xt": xt, "f": f, "ft": ft}));
+        }
+    }
+
+    let rej: Vec<u64> = REJ.iter().map(|a| a.load(Ordering::Relaxed)).collect();
+    watchdog::leave();
+    ctx.notes.push(format!(
+        "rule: input = (g, h, w:len->wt, x:len->xt) with g, h well-formed plain hypergraphs and w, x finite maps of ANY length and declared codomain. \
+         validate runs on every input; mono on inputs whose maps go between the node/hyperedge sets (natural or not; the arrow is assembled from its public fields); convex on inputs the oracle accepts as morphisms. \
+         exhaustive: all pairs of hypergraphs with <=2 nodes (2 labels), <=1 hyperedge (2 labels), lists of length <=1, with ALL typed maps and 4 mistyped variants per pair; two-hyperedge unary hypergraphs on <=2 nodes with all maps (quick: every 5th pair); \
+         convexity of EVERY sub-hypergraph of every host with <=2 nodes/<=2 hyperedges/lists <=2 and 3 nodes/<=3 unary hyperedges (thorough: + 4 nodes/3 unary, 3 nodes/2 hyperedges with lists <=2). \
+         random: morphisms built backwards from h (<=5 nodes, <=3 hyperedges, arity <=3; g up to ~10 nodes, 4 hyperedges) with 0-2 of 16 edit kinds (labels, incidence, order, arity, list boundary, src/tgt exchange, map entries, lengths, codomains, host edits); arbitrary pairs; \
+         random sub-hypergraph inclusions (random numbering) and copairings of two inclusions into hosts with <=7 nodes, <=8 hyperedges (cycles, parallel and repeated incidences, untouched nodes), paths/cycles up to 10 nodes with doubled hyperedges. \
+         non-trivial: validate/mono = g has a node or hyperedge or a map is non-empty; convex = h has a hyperedge with a source and a target; reindex = non-empty segments and index map. \
+         outcomes: accepted {} ; rejected TypeMismatchW {} TypeMismatchX {} NotNaturalW {} NotNaturalX {} NotNaturalS {} NotNaturalT {} ; mono true {} false {} ; convex true {} , false by outside path {} , false by non-injectivity {}.",
+        ACCEPTED.load(Ordering::Relaxed),
+        rej[0], rej[1], rej[2], rej[3], rej[4], rej[5],
+        MONO_T.load(Ordering::Relaxed),
+        MONO_F.load(Ordering::Relaxed),
+        CONVEX_T.load(Ordering::Relaxed),
+        CONVEX_F_PATH.load(Ordering::Relaxed),
+        CONVEX_F_MONO.load(Ordering::Relaxed),
+    ));
+}
